@@ -1104,48 +1104,101 @@ state of a manager after a call is a function of that call's arguments only — 
 held before (earlier trials with other events, sources, selections, index fields) — namely the
 stateless `initTrial` all `c05_tdm_*` theorems are about. -/
 theorem c05_tdm_history_independent {ε : Type} (self : TdmObj ε) (K : Nat) (evs : List ε)
-    (sel : Option (Method ε)) (argsort : Option (List ε → List Nat)) :
-    initTrialObj true self K evs sel argsort =
-      (initTrial K evs sel argsort).map (fun t => { events := t.events, srcEvtIdxs := some t.pairs }) := by
+    (sel : Option (Method ε)) (argsort : Option (List ε → List Nat)) (nEv : Option Nat) :
+    initTrialObj true self K evs sel argsort nEv =
+      (initTrial K evs sel argsort).map (fun t =>
+        { events := t.events, srcEvtIdxs := some t.pairs, nSources := K,
+          nEvents := statedN nEv evs.length }) := by
   unfold initTrialObj initTrial
   cases sel with
   | none =>
     cases argsort with
-    | none => simp
+    | none => simp [TdmObj.nSelected]
     | some f =>
       dsimp only
-      cases take evs (f evs) <;> simp
+      cases take evs (f evs) <;> simp [TdmObj.nSelected]
   | some m =>
     simp only
     cases m evs none with
     | none => simp
     | some r =>
       cases argsort with
-      | none => simp
+      | none => simp [TdmObj.nSelected]
       | some f =>
         simp only
         cases take r.events (f r.events) with
         | none => simp
         | some sorted =>
           simp only
-          cases reindex (f r.events) r.pairs <;> simp
+          cases reindex (f r.events) r.pairs <;> simp [TdmObj.nSelected]
+
+/-- **The stated data-set size does not enter the table**: events and (source, event) table after
+`initialize_trial` are the same whatever `n_events` the caller states; `n_events` only sets the
+stored total (`len(events)` if not given), the stored number of sources is the manager's, and hence
+`n_pure_bkg_events = n_events − n_selected_events`, `get_n_values()` = length of the table. -/
+theorem c05_tdm_n_events_irrelevant {ε : Type} (self self' : TdmObj ε) (K : Nat) (evs : List ε)
+    (sel : Option (Method ε)) (argsort : Option (List ε → List Nat)) (nEv nEv' : Option Nat) :
+    (initTrialObj true self K evs sel argsort nEv).map (fun s => (s.events, s.srcEvtIdxs, s.nSources)) =
+      (initTrialObj true self' K evs sel argsort nEv').map (fun s => (s.events, s.srcEvtIdxs, s.nSources)) ∧
+    ∀ s, initTrialObj true self K evs sel argsort nEv = some s →
+      s.nSources = K ∧
+      s.nEvents = statedN nEv evs.length ∧
+      s.nPureBkg = (s.nEvents : Int) - (s.nSelected : Int) ∧
+      ∃ P, s.srcEvtIdxs = some P ∧ s.nValues = some P.length := by
+  constructor
+  · simp only [c05_tdm_history_independent, Option.map_map]
+    rfl
+  · intro s hs
+    rw [c05_tdm_history_independent] at hs
+    cases ht : initTrial K evs sel argsort with
+    | none => simp [ht] at hs
+    | some t =>
+      simp only [ht, Option.map_some, Option.some.injEq] at hs
+      subst hs
+      exact ⟨rfl, rfl, rfl, t.pairs, rfl, rfl⟩
+
+theorem C05.fullPairs_length (K n : Nat) : (fullPairs K n).length = K * n := by
+  rw [C05.fullPairs_eq]
+  induction K with
+  | zero => simp
+  | succ K ih => rw [List.range_succ, List.flatMap_append, List.length_append, ih]; simp [Nat.succ_mul]
+
+/-- **Default table and counts without event selection**, whatever `n_events` is stated: the table
+is the all-pairs table over the stored sources and the events *held* — `K · n` entries, every event
+index `< n` — and `n_pure_bkg_events = n_events − n`. -/
+theorem c05_tdm_default_counts {ε : Type} (self : TdmObj ε) (K : Nat) (evs : List ε) (nEv : Option Nat) :
+    ∃ s, initTrialObj true self K evs none none nEv = some s ∧ s.events = evs ∧
+      s.srcEvtIdxs = some (fullPairs K evs.length) ∧ s.nValues = some (K * evs.length) ∧
+      (∀ p ∈ fullPairs K evs.length, p.1 < K ∧ p.2 < s.nSelected) ∧
+      s.nPureBkg = (statedN nEv evs.length : Int) - (evs.length : Int) ∧
+      statedN none evs.length = evs.length ∧ ∀ N, statedN (some N) evs.length = N := by
+  refine ⟨_, c05_tdm_history_independent self K evs none none nEv, rfl, rfl, ?_, ?_, ?_, ?_⟩
+  · simp [TdmObj.nValues, incTable, C05.fullPairs_length]
+  · rintro ⟨k, i⟩ hp; exact (C05.mem_fullPairs _ _ _ _).mp hp
+  · rfl
+  · exact ⟨rfl, fun _ => rfl⟩
 
 /-- after any history on one manager, if the last call succeeds the object is exactly what a fresh
 manager holds after that call alone — whatever earlier raising calls left behind (`onRaise` arbitrary) -/
 theorem c05_tdm_last_call_only {ε : Type} (onRaise : TdmObj ε → TdmCall ε → TdmObj ε) (self : TdmObj ε)
     (cs : List (TdmCall ε)) (c : TdmCall ε)
     (t : Tdm ε) (hc : initTrial c.K c.evs c.sel c.argsort = some t) :
-    runCalls true onRaise self (cs ++ [c]) = { events := t.events, srcEvtIdxs := some t.pairs } ∧
-    runCalls true onRaise TdmObj.fresh [c] = { events := t.events, srcEvtIdxs := some t.pairs } := by
-  have one : ∀ s : TdmObj ε, runCalls true onRaise s [c] = { events := t.events, srcEvtIdxs := some t.pairs } := by
+    runCalls true onRaise self (cs ++ [c]) = runCalls true onRaise TdmObj.fresh [c] ∧
+    (runCalls true onRaise TdmObj.fresh [c]).events = t.events ∧
+    (runCalls true onRaise TdmObj.fresh [c]).srcEvtIdxs = some t.pairs ∧
+    (runCalls true onRaise TdmObj.fresh [c]).nSources = c.K := by
+  have one : ∀ s : TdmObj ε, runCalls true onRaise s [c] =
+      { events := t.events, srcEvtIdxs := some t.pairs, nSources := c.K,
+        nEvents := statedN c.nEv c.evs.length } := by
     intro s
     simp only [runCalls, c05_tdm_history_independent, hc, Option.map_some]
-  refine ⟨?_, one _⟩
+  refine ⟨?_, by rw [one], by rw [one], by rw [one]⟩
+  rw [one TdmObj.fresh]
   induction cs generalizing self with
   | nil => exact one self
   | cons d ds ih =>
     simp only [List.cons_append, runCalls]
-    cases initTrialObj true self d.K d.evs d.sel d.argsort with
+    cases initTrialObj true self d.K d.evs d.sel d.argsort d.nEv with
     | none => exact ih _
     | some s => exact ih s
 
@@ -1159,7 +1212,7 @@ def c05_tdm_no_reset_statement : Prop :=
 trial that left the pair `(0, 5)`, a one-event trial stores `(0, 5)` (out of range) instead of `(0, 0)` -/
 theorem c05_tdm_no_reset_counterexample : ¬ c05_tdm_no_reset_statement := by
   intro h
-  have := h { events := [1, 2, 3, 4, 5, 6], srcEvtIdxs := some [(0, 5)] } 1 [7]
+  have := h { events := [1, 2, 3, 4, 5, 6], srcEvtIdxs := some [(0, 5)], nSources := 1, nEvents := 6 } 1 [7]
   revert this
   decide
 
@@ -1394,3 +1447,6 @@ example : ∀ (f : List Nat → List Nat) (evs' : List Nat),
 example : (initTrial 2 [30, 10, 20] (some (maskMethod 2 (fun k (e : Nat) => decide (e > 10 * (k + 1)))))
     (some (fun l => (List.range l.length).reverse))).map (fun t => (t.events, t.pairs)) =
     some ([20, 30], [(0, 1), (0, 0), (1, 1)]) := by decide
+-- a trial on 3 pre-selected events of a data set stated to hold 10: table 2·3, 7 pure background events
+example : (initTrialObj true (TdmObj.fresh : TdmObj Nat) 2 [7, 8, 9] none none (some 10)).map
+    (fun s => (s.nValues, s.nPureBkg, s.nSources, s.nEvents)) = some (some 6, 7, 2, 10) := by decide
